@@ -39,8 +39,8 @@ type Kind struct {
 	Rep       int    `json:"rep"`
 }
 
-var kinds = []string{"http/uri", "http/uri+noconfheaders", "http/uri+preload", "http/uripost", "http/raw", "http/jsonline", "http/jsonline+array", "http/jsonline+preload+shared-client", "connect/uri",
-	"http/scenario", "http/scenario+rand", "http/scenario+failing-steps+phout", "grpc/json", "grpc/json+shared-client", "grpc/scenario", "grpc/scenario+failing-steps+phout", "grpc/json+answlog+two-pools", "grpc/scenario+answlog+two-pools", "grpc/json+discard-overflow", "mock/ownership", "http/uri+phout+composite", "schedule/first-use", "http/uri+datemw", "http/uri+dnscache"}
+var kinds = []string{"http/uri", "http/uri+noconfheaders", "http/uri+preload", "http/uripost", "http/raw", "http/jsonline", "http/jsonline+array", "http/jsonline+preload+shared-client", "http2/uri", "http2/uripost+shared-client", "connect/uri",
+	"http/scenario", "http/scenario+xpath", "http/scenario+rand", "http/scenario+failing-steps+phout", "grpc/json", "grpc/json+shared-client", "grpc/scenario", "grpc/scenario+failing-steps+phout", "grpc/json+answlog+two-pools", "grpc/scenario+answlog+two-pools", "grpc/json+discard-overflow", "mock/ownership", "http/uri+phout+composite", "schedule/first-use", "http/uri+datemw", "http/uri+dnscache"}
 
 func skipType(t reflect.Type) bool {
 	switch t.Name() {
@@ -92,7 +92,7 @@ func httpKind(res *vkit.Result, k Kind) {
 	var err error
 	if late {
 		tgt = &vkit.HTTPTarget{Addr: strings.Replace(addr, "127.0.0.1", "localhost", 1)}
-	} else if tgt, err = vkit.NewHTTPTargetAt(addr, false); err != nil {
+	} else if tgt, err = vkit.NewHTTPTargetAt(addr, strings.HasPrefix(k.Name, "http2/")); err != nil {
 		res.Inconclusive(true, "target: %v", err)
 		return
 	}
@@ -319,6 +319,12 @@ func httpScenarioKind(res *vkit.Result, k Kind) {
 			_, _ = w.Write([]byte(`not json`))
 			return
 		}
+		if strings.Contains(k.Name, "xpath") {
+			// an HTML answer: the values the next step needs are taken out of it with var/xpath
+			w.Header().Set("Content-Type", "text/html")
+			_, _ = w.Write([]byte(`<html><head><title>T` + u + `</title></head><body><form id="main"><input name="csrf" value="t` + u + `"/><input name="csrf" value="other"/></form><ul><li>a</li><li>i` + u + `</li></ul></body></html>`))
+			return
+		}
 		_, _ = w.Write([]byte(`{"tok":"t` + u + `","list":[1,2,3]}`))
 	}
 	base := vkit.WriteMem(nil)
@@ -336,6 +342,16 @@ func httpScenarioKind(res *vkit.Result, k Kind) {
 		randMap = `, "rnd": "source.js[rand].k", "ri": "randInt(1,100)", "rs": "randString(5)", "u": "uuid()", "last": "source.js[last].k"`
 	}
 	y = strings.ReplaceAll(y, "@RANDMAP@", randMap)
+	if strings.Contains(k.Name, "xpath") {
+		// every value the second step uses comes from var/xpath (a grouped expression, a plain
+		// path, a predicate) — one postprocessor object evaluates the answers of all instances
+		y = strings.Replace(y, `      - type: "var/jsonpath"
+        mapping: {"tok": "$.tok", "item": "$.list[1]"}
+`, `      - type: "var/xpath"
+        mapping: {"tok": "(//input[@name='csrf'])[1]/@value", "item": "//li[2]", "ttl": "//form[@id='main']/input[@name='csrf']/@value"}
+`, 1)
+		y = strings.Replace(y, `        body: ["tok"]`, `        body: ["csrf"]`, 1)
+	}
 	_ = vkit.WriteMemAt(base+".yaml", []byte(y))
 	defer func() {
 		for _, e := range []string{".csv", ".json", ".yaml"} {
